@@ -21,6 +21,7 @@ func init() {
 			"stack depth on deeply nested queries; memory",
 		},
 		Rules: func(r *Run) {
+			ruleLoopProgress(r, []string{enginePkg, metricPkg, dockerlogPkg, "internal/iterators", "internal/logql/logqlengine/jsonexpr", "internal/logql/logqlengine/logqlpattern", logqlPkg, lexerPkg, "internal/lexerql", "internal/otelstorage", cmdPkg}, 60)
 			rulePanicInventory(r)
 			ruleTypeSwitchExhaustive(r, enginePkg, "", "buildStage", logqlPkg, "PipelineStage", 13, false)
 			ruleTypeSwitchExhaustive(r, enginePkg, "", "buildLabelPredicate", logqlPkg, "LabelPredicate", 7, false)
